@@ -256,6 +256,49 @@ Proof.
     + rewrite firstn_length. inversion Hmc; subst. lia.
 Qed.
 
+(* all columns use the bulk custom codec, the length token says n' (any value), the column
+   tokens are those of a frame f, and the checksum token does not match the bytes read:
+   an integrity error.  This is where the batch length is protected by the checksum alone. *)
+Lemma read_bulk_bad_crc (r : R) n' f u0 es c uc rest s dest :
+  Forall (fun k => k = KCodecBulk) sch ->
+  rerr r = None -> flen (rbuf r) = 0 ->
+  rst r = ((TLen (Z.of_nat n'), u0) :: es ++ (TCrc c, uc) :: fst rest, snd rest) ->
+  map fst es = cols_toks Sess cenc s sch f -> length f = length sch ->
+  wf_frame sch dest -> scratch_ok (rscratch r) ->
+  c <> crc_update 0 (firstn (used_of ((TLen (Z.of_nat n'), u0) :: es)) (rinp r)) ->
+  exists r', READ r dest = (RErr EIntegrity, r') /\ rerr r' = Some EIntegrity.
+Proof.
+  intros Hall He Hb Hst Hes Hlf Hwd Hsc Hc.
+  unfold read. rewrite He, Hb. cbn [Nat.eqb].
+  set (r0 := mkR (rinp r) (rst r) (rsess r) 0 (rscratch r) (rbuf r) (@None err)).
+  assert (Hst0 : rst r0 = ((TLen (Z.of_nat n'), u0) :: (es ++ (TCrc c, uc) :: fst rest), snd rest))
+    by (subst r0; cbn [rst]; exact Hst).
+  rewrite (rd_pop Sess r0 _ _ _ _ Hst0).
+  set (r1 := Batch.after Sess r0 [(TLen (Z.of_nat n'), u0)] (es ++ (TCrc c, uc) :: fst rest, snd rest) (rsess r0)).
+  assert (Hnn : Z.ltb (Z.of_nat n') 0 = false) by (apply Z.ltb_ge; lia).
+  rewrite Hnn, andb_false_r.
+  assert (Hdec : forall mem, length mem = length sch ->
+            decode dscript dec_script Sess cdec cf r1 sch mem = DfErr EIntegrity).
+  { intros mem Hm. unfold decode.
+    destruct (dec_cols_bulk Sess cenc cdec cf sch Hall f r1 es ((TCrc c, uc) :: fst rest, snd rest) s (fzero mem)
+                Hes eq_refl Hlf) as [f' Hf'].
+    { unfold fzero. rewrite map_length. exact Hm. }
+    rewrite Hf'.
+    rewrite (rd_pop Sess (Batch.after Sess r1 es ((TCrc c, uc) :: fst rest, snd rest) (rsess r1))
+                    (TCrc c) uc (fst rest) (snd rest) eq_refl).
+    replace (N.eqb _ c) with false; [reflexivity|].
+    symmetry. apply N.eqb_neq. intro E. apply Hc. rewrite <- E.
+    subst r1 r0. unfold Batch.after; cbn [rcrc rinp].
+    rewrite crc_update_app. change ((TLen (Z.of_nat n'), u0) :: es) with ([(TLen (Z.of_nat n'), u0)] ++ es).
+    rewrite used_of_app, firstn_add. reflexivity. }
+  assert (Hlen : length dest = length sch) by (destruct Hwd; assumption).
+  destruct (Z.leb (Z.of_nat n') (Z.of_nat (flen dest))).
+  - rewrite Hdec; [eexists; split; reflexivity|]. unfold ftake. rewrite map_length. exact Hlen.
+  - assert (Hsc1 : rscratch r1 = rscratch r) by reflexivity. rewrite Hsc1.
+    destruct (ensure_shape (rscratch r) (Z.to_nat (Z.of_nat n')) Hsc) as (Hml & _).
+    rewrite Hdec; [eexists; split; reflexivity|]. unfold ftake. rewrite map_length. exact Hml.
+Qed.
+
 (* ---------------------------------------------------------------- a run of intact batches *)
 (* [good s bs sc inp tinp]: the script [sc] and the input [inp] start with the tokens
    and bytes of the batches [bs] written from session state [s], each with the
